@@ -166,6 +166,89 @@ pub fn run(ctx: &mut Ctx) -> Report {
 		}
 	}
 	s.rep.exhaustive.push("every signing algorithm of the build x {local, remote} x {certificate, CSR, CRL}".into());
+	// --- every (subject algorithm, issuer algorithm) pair, through `signed_by` with the key and
+	// through a parsed request: the inner and outer identifiers are the *issuer's*
+	#[cfg(not(feature = "nocrypto"))]
+	{
+		let subject_algs: Vec<String> = keys::build_algs().iter().map(|a| alg_name(a).to_string()).collect();
+		for sg in signers.iter().filter(|x| x.remote.is_none() && x.origin == "local") {
+			for sa in &subject_algs {
+				let subject_key = s.ctx.key(sa);
+				let mut p = PCert::default_like();
+				p.serial = Some(vec![5]);
+				p.san = vec![San::Dns(format!("{}.under.{}.example", sa.to_lowercase(), sg.name.to_lowercase()))];
+				let Some(rp) = p.real() else { continue };
+				if let Ok(Ok(c)) = std::panic::catch_unwind(std::panic::AssertUnwindSafe(|| rp.clone().signed_by(&*subject_key, &sg.cert, &sg.key))) {
+					let der = c.der().to_vec();
+					check_artefact(&mut s, sg, "cert", &der, &format!("spec-cert {} {} {} {}", p.sexp(), key_sexp(&*subject_key), issuer_sexp(&sg.p, &*sg.key), hex(&der)));
+					s.rep.count("algorithm_pairs:signed_by");
+				}
+				// the same through a request
+				let mut q = p.clone();
+				q.serial = None;
+				let Some(rq) = q.real() else { continue };
+				let Ok(Ok(csr)) = std::panic::catch_unwind(std::panic::AssertUnwindSafe(|| rq.serialize_request(&subject_key))) else { continue };
+				let Ok(Ok(parsed)) = std::panic::catch_unwind(std::panic::AssertUnwindSafe(|| CertificateSigningRequestParams::from_der(csr.der()))) else { continue };
+				let pp = PCert::of_real(&parsed.params);
+				let ks = key_sexp(&parsed.public_key);
+				if let Ok(Ok(c)) = std::panic::catch_unwind(std::panic::AssertUnwindSafe(|| parsed.signed_by(&sg.cert, &sg.key))) {
+					let der = c.der().to_vec();
+					check_artefact(&mut s, sg, "cert", &der, &format!("spec-cert {} {} {} {}", pp.sexp(), ks, issuer_sexp(&sg.p, &*sg.key), hex(&der)));
+					s.rep.count("algorithm_pairs:request_signed_by");
+				}
+			}
+		}
+		s.rep.exhaustive.push("every (subject algorithm, issuer algorithm) pair of the build, issued with the subject key and issued from a parsed request".into());
+	}
+	// --- every algorithm rcgen offers by OID (`SignatureAlgorithm::from_oid`), not only the
+	// exported constants: whatever it hands out must sign verifiably under its own identifier
+	#[cfg(not(feature = "nocrypto"))]
+	{
+		let known = keys::build_algs();
+		for (oid_name, oid) in keys::registered_signature_oids() {
+			let Ok(Ok(alg)) = std::panic::catch_unwind(|| SignatureAlgorithm::from_oid(&oid)) else { continue };
+			if known.iter().any(|k| *k == alg) {
+				continue;
+			}
+			s.rep.count("algorithms_offered_by_oid_beyond_the_constants");
+			// any private key that loads under it
+			let docs: Vec<Vec<u8>> = vec![s.ctx.rsa_fixture.clone(), s.ctx.key("ecdsaP256").serialize_der(), s.ctx.key("ecdsaP384").serialize_der(), s.ctx.key("ed25519").serialize_der()];
+			for doc in docs {
+				let p8 = rustls_pki_types::PrivatePkcs8KeyDer::from(doc.clone());
+				let Ok(Ok(key)) = std::panic::catch_unwind(std::panic::AssertUnwindSafe(|| KeyPair::from_pkcs8_der_and_sign_algo(&p8, alg))) else { continue };
+				let mut p = PCert::default_like();
+				p.serial = Some(vec![6]);
+				p.ca = Ca::Ca(None);
+				let Some(rp) = p.real() else { continue };
+				let truth = openssl_spki_of_pkcs8(&doc);
+				let mut arts: Vec<(&str, Vec<u8>)> = Vec::new();
+				if let Ok(Ok(c)) = std::panic::catch_unwind(std::panic::AssertUnwindSafe(|| rp.clone().self_signed(&key))) {
+					if let Ok(Ok(crl)) = std::panic::catch_unwind(std::panic::AssertUnwindSafe(|| {
+						let mut cl = gen_crl(&mut s.rng);
+						cl.this = Dt::ymd(2024, 1, 1);
+						cl.next = Dt::ymd(2025, 1, 1);
+						cl.real().unwrap().signed_by(&c, &key)
+					})) {
+						arts.push(("crl", crl.der().to_vec()));
+					}
+					arts.push(("cert", c.der().to_vec()));
+				}
+				if let Ok(Ok(c)) = std::panic::catch_unwind(std::panic::AssertUnwindSafe(|| rp.clone().serialize_request(&key))) {
+					arts.push(("csr", c.der().to_vec()));
+				}
+				for (kind, der) in arts {
+					let line = format!("{} algorithm-by-oid={} ({:?}) der={}", kind, oid_name, oid, hex(&der));
+					s.rep.case(&line, true);
+					let spki = truth.clone().unwrap_or_else(|| key.public_key_der());
+					match openssl_verify(kind, &der, &spki) {
+						Some(true) => s.rep.count("oracle_openssl_verify_offered_algorithm"),
+						Some(false) | None => s.rep.violate(&format!("C01:openssl-verify:{}:algorithm-offered-by-oid:{}", kind, oid_name), "an algorithm rcgen hands out for a registered signature OID produces artefacts whose signature an independent verifier rejects under the signer's public key (or whose algorithm identifier it cannot use)", line),
+					}
+				}
+			}
+		}
+		s.rep.exhaustive.push("every registered PKIX signature algorithm OID offered to SignatureAlgorithm::from_oid; algorithms beyond the exported constants are loaded with every fitting key and their artefacts verified by OpenSSL".into());
+	}
 	// --- fault injection: the remote signer fails on its k-th call in a history of 6 generations
 	for sg in signers.iter().filter(|x| x.remote.is_some()) {
 		let r = sg.remote.as_ref().unwrap();
